@@ -468,7 +468,7 @@ def deqDone (x : Th) : Th :=
     else if x.dres = 0 then { x with pc := .rSc } else retPending x
   | .pr2Strag =>
     if x.got.isSome then { x with pc := .auLock, fin := .retGot } else { x with pc := .auLock, fin := .retDisc }
-  | .probe => x
+  | .probe => retWith x .none
 
 /-- `senders_alive()` evaluated after an `Empty` (`n` = the count read) -/
 def scDone (x : Th) (n : Nat) : Th :=
@@ -479,7 +479,7 @@ def scDone (x : Th) (n : Nat) : Th :=
   | .pr1 => if n = 0 then deqCall x .pr1Strag else flushCall x .pr1
   | .pr2 => if n = 0 then deqCall x .pr2Strag else retPending x
   | .probe => if n = 0 then { x with pc := .lG, pr := .isClosedR } else retWith x (.b false)
-  | _ => x
+  | _ => retWith x .none
 
 /-- `flush_progress` returned -/
 def flushDone (c : Cfg) (x : Th) : Th :=
@@ -539,7 +539,7 @@ def pollEntry (x : Th) : Th :=
   match x.op with
   | .sendA _ _ => { x with pc := .cClosed, chk := .pollS }
   | .recvA => { x with pc := .rClosed }
-  | _ => x
+  | _ => retWith x .none
 
 /-! One definition per program counter (`nx<Pc>`), dispatched by `next`. -/
 def nxIdle (c : Cfg) (s : State) (t : Tid) : Option (Act × State) :=
@@ -1528,57 +1528,71 @@ def callOk (s : State) (op : Op) : Bool :=
    | .nop => false
    | _ => true)
 
+/-- thread-local part of a call -/
+def callTh (c : Cfg) (s : State) (x : Th) (x0 : Th) (op : Op) : Th :=
+  match op with
+  | .send h v => { x0 with pc := .cClosed, chk := .sendEntry, h := h, v := v, reg := false, myId := none }
+  | .trySend h v => { x0 with pc := .cClosed, chk := .trySend, h := h, v := v }
+  | .sendA h v => { x0 with pc := .cClosed, chk := .pollS, h := h, v := v, item := some v, myId := none, blockOn := true }
+  | .futSend _ _ _ => retWith x0 .ok
+  | .futRecv _ => retWith x0 .ok
+  | .poll f =>
+    let fu := s.fut f
+    let x1 : Th := { x0 with v := fu.item.getD 0, item := fu.item, myId := fu.myId, reg := fu.reg, curF := f }
+    (match fu.kind with
+     | .send => { x1 with pc := .cClosed, chk := .pollS }
+     | _ => { x1 with pc := .rClosed })
+  | .dropFut f =>
+    let fu := s.fut f
+    let x1 : Th := { x0 with myId := fu.myId, reg := fu.reg, curF := f, fin := .dropFut,
+                             res := if 0 < s.wakes f then .okWoken else .ok }
+    (match fu.kind with
+     | .send => if fu.myId.isSome then { x1 with pc := .uaLock } else { x1 with pc := .ret }
+     | _ => if fu.reg then { x1 with pc := .auLock } else { x1 with pc := .ret })
+  | .wakes f => retWith x0 (.n (s.wakes f))
+  | .recv => { x0 with pc := .rClosed }
+  | .tryRecv => { x0 with pc := .rClosed }
+  | .recvT0 => deqCall { x0 with reg := false, fg := x.nfl, nfl := x.nfl + 1 } .rt0
+  | .recvA => { x0 with pc := .rClosed, reg := false, blockOn := true }
+  | .clone h _ => { x0 with pc := .cnAdd, h := h }
+  | .closeS h => { x0 with pc := .clCas, h := h }
+  | .dropS h => { x0 with pc := .clCas, h := h }
+  | .closeR => { x0 with pc := .rcCas }
+  | .dropR => { x0 with pc := .rcCas }
+  | .len => { x0 with pc := .lG, pr := .len }
+  | .isEmpty => { x0 with pc := .lG, pr := .isEmpty }
+  | .isFull => { x0 with pc := .lG, pr := .isFull }
+  | .capacity => retWith x0 (.n c.cap)
+  | .isClosedS h => { x0 with pc := .cClosed, chk := .isClosed, h := h }
+  | .isClosedR => { x0 with pc := .rClosed }
+  | .nop => retWith x0 .none
+
+/-- future table / counting-waker part of a call -/
+def callFut (s : State) (op : Op) : Fid → Fut :=
+  match op with
+  | .futSend f h v => upd s.fut f { kind := .send, h := h, item := some v }
+  | .futRecv f => upd s.fut f { kind := .recv }
+  | .dropFut f => upd s.fut f {}
+  | _ => s.fut
+
+def callWakes (s : State) (op : Op) : Fid → Nat :=
+  match op with
+  | .poll f => upd s.wakes f 0
+  | _ => s.wakes
+
 def stepCall (c : Cfg) (s : State) (t : Tid) : Option (Act × State) :=
   let x := s.th t
   match x.pc, s.prog t with
   | .idle, op :: rest =>
     if callOk s op then
-      let s0 : State := { s with prog := upd s.prog t rest,
-                                 sBusy := (match opHandle s op with | some h => upd s.sBusy h (some t) | none => s.sBusy),
-                                 rBusy := if opRecv s op then some t else s.rBusy }
       let x0 : Th := { x with op := op, res := .none, seq0 := s.seq t, blockOn := false, got := none,
                               hb := (opHandle s op).isSome, h := (opHandle s op).getD 0, rb := opRecv s op }
-      let W : State → Th → State := fun s' x' => { s' with th := upd s'.th t x' }
-      let r : State :=
-        match op with
-        | .send h v => W s0 { x0 with pc := .cClosed, chk := .sendEntry, h := h, v := v, reg := false, myId := none }
-        | .trySend h v => W s0 { x0 with pc := .cClosed, chk := .trySend, h := h, v := v }
-        | .sendA h v => W s0 { x0 with pc := .cClosed, chk := .pollS, h := h, v := v, item := some v, myId := none, blockOn := true }
-        | .futSend f h v => W { s0 with fut := upd s.fut f { kind := .send, h := h, item := some v } } (retWith x0 .ok)
-        | .futRecv f => W { s0 with fut := upd s.fut f { kind := .recv } } (retWith x0 .ok)
-        | .poll f =>
-          let fu := s.fut f
-          let x1 : Th := { x0 with v := fu.item.getD 0, item := fu.item, myId := fu.myId, reg := fu.reg, curF := f }
-          W { s0 with wakes := upd s.wakes f 0 }
-            (match fu.kind with
-             | .send => { x1 with pc := .cClosed, chk := .pollS }
-             | _ => { x1 with pc := .rClosed })
-        | .dropFut f =>
-          let fu := s.fut f
-          let x1 : Th := { x0 with myId := fu.myId, reg := fu.reg, curF := f, fin := .dropFut,
-                                   res := if 0 < s.wakes f then .okWoken else .ok }
-          W { s0 with fut := upd s.fut f {} }
-            (match fu.kind with
-             | .send => if fu.myId.isSome then { x1 with pc := .uaLock } else { x1 with pc := .ret }
-             | _ => if fu.reg then { x1 with pc := .auLock } else { x1 with pc := .ret })
-        | .wakes f => W s0 (retWith x0 (.n (s.wakes f)))
-        | .recv => W s0 { x0 with pc := .rClosed }
-        | .tryRecv => W s0 { x0 with pc := .rClosed }
-        | .recvT0 => W s0 (deqCall { x0 with reg := false, fg := x.nfl, nfl := x.nfl + 1 } .rt0)
-        | .recvA => W s0 { x0 with pc := .rClosed, reg := false, blockOn := true }
-        | .clone h _ => W s0 { x0 with pc := .cnAdd, h := h }
-        | .closeS h => W s0 { x0 with pc := .clCas, h := h }
-        | .dropS h => W s0 { x0 with pc := .clCas, h := h }
-        | .closeR => W s0 { x0 with pc := .rcCas }
-        | .dropR => W s0 { x0 with pc := .rcCas }
-        | .len => W s0 { x0 with pc := .lG, pr := .len }
-        | .isEmpty => W s0 { x0 with pc := .lG, pr := .isEmpty }
-        | .isFull => W s0 { x0 with pc := .lG, pr := .isFull }
-        | .capacity => W s0 (retWith x0 (.n c.cap))
-        | .isClosedS h => W s0 { x0 with pc := .cClosed, chk := .isClosed, h := h }
-        | .isClosedR => W s0 { x0 with pc := .rClosed }
-        | .nop => s0
-      some ({ kind := .call }, r)
+      some ({ kind := .call },
+            { s with prog := upd s.prog t rest,
+                     sBusy := (match opHandle s op with | some h => upd s.sBusy h (some t) | none => s.sBusy),
+                     rBusy := if opRecv s op then some t else s.rBusy,
+                     fut := callFut s op, wakes := callWakes s op,
+                     th := upd s.th t (callTh c s x x0 op) })
     else none
   | _, _ => none
 
